@@ -364,6 +364,7 @@ package vuego
 //@   ensures C04.balance: BALANCED(ctx)
 //@   loop 0 invariant C04.balance.loop: BALANCED(ctx)
 //@   ensures C04.skip.range: 0 <= skip && skip < len(nodes)
+//@   assert C04.else.only.if.empty: len(loopNodes) == 0 at "call evaluateNodeAsElement"
 //@   loop 1 invariant C04.else.scan: 1 <= j && skipCount == 0 && BALANCED(ctx)
 
 //@ func (v *Vue) evaluate(ctx, nodes, depth) (res, err)
@@ -574,6 +575,9 @@ package vuego
 //@   decreases maxEvalDepth + 10 - depth, 4
 //@   holds ctx.stack
 //@   assert C04.instance.fresh: fresh(iterNode) && iterNode != nil at "v.evaluate(ctx, []*html.Node{iterNode}, depth)"
+//@   assert C04.bind.value: len(vars) >= 1 && (vars[len(vars) - 1] in ctx.stack.stack[len(ctx.stack.stack) - 1]) && ctx.stack.stack[len(ctx.stack.stack) - 1][vars[len(vars) - 1]] == value at "v.evaluate(ctx, []*html.Node{iterNode}, depth)"
+//@   assert C04.bind.index: len(vars) == 2 && vars[0] != vars[1] ==> (vars[0] in ctx.stack.stack[len(ctx.stack.stack) - 1]) && ctx.stack.stack[len(ctx.stack.stack) - 1][vars[0]] == box(index) at "v.evaluate(ctx, []*html.Node{iterNode}, depth)"
+//@   assert C04.bind.own.scope: len(ctx.stack.stack) == old(len(ctx.stack.stack)) + 1 at "v.evaluate(ctx, []*html.Node{iterNode}, depth)"
 //@   ensures C04.balance: BALANCED(ctx)
 
 //@ func (v *Vue) propagateTemplateAttributes(ctx, node)
@@ -610,6 +614,8 @@ package vuego
 //@   ensures C04+C05.balance: BALANCED(ctx)
 //@   loop 0 invariant C05.balance.loop: BALANCED(ctx)
 //@   loop 5 invariant C05.balance.loop: BALANCED(ctx)
+//@   loop 3 invariant C05.required.scan: 0 <= $i && $i <= len(requiredAttrs) && forall ri int :: 0 <= ri && ri < $i ==> (requiredAttrs[ri] in componentData)
+//@   assert C05.required.checked: forall ri int :: 0 <= ri && ri < len(requiredAttrs) ==> (requiredAttrs[ri] in componentData) at "call evalVHtml"
 
 //@ func (v *Vue) evalInclude(ctx, node, vars, depth) (res, err)
 //@   decreases maxEvalDepth + 10 - depth, 0
